@@ -25,6 +25,8 @@ EXPLANATION = (
     ' cannot contain */.'
     " R14.2: a conditional declaration separator (`if not <text>.endswith(';')`) must examine the entry already"
     ' stored for the selector, not the block about to be appended.'
+    ' R14.3: in GraphicObject.property_by_values the two-step read of a paint property (`x ='
+    ' values.get(internal); x = values.get(ATTR, x)`) falls back to the same property.'
 )
 TECHNIQUE = (
     "static analysis (no execution): ordered specificity classification of style-assembly statements; def-use closure for comment-strip-before-match and accumulation order; source-order resolution of currentColor; canonical forms of stroke-width scaling"
